@@ -33,6 +33,11 @@ func MockSpecs(thorough bool) []*spec.Spec {
 			mk(fmt.Sprintf("%s_%s", k, card), fmt.Sprintf("kind=%s,card=%s", k, card), spec.M("Resp", f, spec.F("label", "string")), nil, nil)
 		}
 	}
+	// map fields by KEY kind (every kind protobuf allows as a map key), with a scalar and with a message value
+	for _, k := range []string{"int32", "int64", "uint32", "uint64", "sint32", "sint64", "fixed32", "fixed64", "sfixed32", "sfixed64", "bool"} {
+		mk("mapkey_"+k, "kind=string,card=map,key="+k, spec.M("Resp", spec.F("val", "string").MapK(k), spec.Msg("by", "Inner").MapK(k), spec.F("label", "string")),
+			[]*spec.Message{spec.M("Inner", spec.F("name", "string"))}, nil)
+	}
 	color := spec.E("Color", "COLOR_UNSPECIFIED", "COLOR_RED")
 	mk("enum_singular", "kind=enum,card=singular", spec.M("Resp", spec.En("val", "Color")), nil, []*spec.Enum{color})
 	mk("message_singular", "kind=message,card=singular", spec.M("Resp", spec.Msg("val", "Inner"), spec.F("label", "string")), []*spec.Message{spec.M("Inner", spec.F("name", "string"), spec.F("n", "int64"))}, nil)
